@@ -72,6 +72,9 @@ class App:
                     start_response(c["status"], hdrs, sys.exc_info())
             else:
                 start_response(c["status"], hdrs)
+            if c.get("late"):
+                # the application goes on using the list it handed over: what it adds now was never offered to start_response
+                hdrs.append((c["late"][0], c["late"][1]))
         except Exception as e:      # noqa: BLE001 - the server refused: propagate like a real app would
             self.exc = type(e).__name__
             raise
@@ -112,6 +115,9 @@ def judge(case, out, app):
     if case.get("catch") and (verdict in ("refuse", "either") or b"500 Caught By Middleware\r\n" in out["received"][:60]):
         return judge_caught(case, out, verdict)
     markers = [m.encode("latin-1", "replace") for m in case["markers"]]
+    if case.get("late") and b"lateZq" in data:
+        v.append(("header-added-after-start-response-on-wire", "the application appended %r to its list after start_response() had "
+                  "returned; the client received: %s" % (case["late"], hexs(data[:300]))))
     if out["handler_exc"]:
         v.append(("exception-escaped-handler", out["handler_exc"]))
     if out["hung"]:
@@ -288,10 +294,14 @@ def random_case(rng):
             hdrs.append(["X-T%d" % i, "v" + m])
             types.append([i, rng.choice(["name-bytes", "value-bytes", "value-int", "value-none"])])
         markers.append(m)
-    status = rng.choice(["200 OK", "404 Not Found", "200", "299 Custom Reason", "200 OK\r\nX-Inj: 1Zqs", "200 OK\nX-Inj: 1Zqs",
+    status = rng.choice(["407 Proxy Authentication Required", "401 Unauthorized", "426 Upgrade Required", "502 Bad Gateway", "503 Busy",
+                         "200 OK", "404 Not Found", "200", "299 Custom Reason", "200 OK\r\nX-Inj: 1Zqs", "200 OK\nX-Inj: 1Zqs",
                          "200 \0Zqs", "abcZqs", "", "200 OK " + "r" * 300, "200 caf\xe9", "200 ĀZqs", "2 0 0", "204 No Content"])
     c = {"status": status, "headers": hdrs, "markers": markers + ["Zqs"], "types": types or None,
          "retry": rng.random() < 0.15, "catch": rng.random() < 0.2}
+    if rng.random() < 0.12:
+        c["late"] = rng.choice([["X-Late", "v\r\nSet-Cookie: lateZq=1"], ["X-Late\r\nX-lateZq", "1"], ["X-Late", "lateZq\0"],
+                                ["Transfer-Encoding", "lateZq"], ["X-Late", "lateZq"]])
     if c["catch"]:
         c["retry"] = False
     if c["status"].startswith("204"):
